@@ -35,8 +35,8 @@ def send_data(rng, tid, ies, nrec, setid=None, maxlen=200):
     return "exp send %s d %d %s" % (rng.choice(PATHS), tid if setid is None else setid, recs)
 
 
-def valid_session(rng, sup, nsends, near_wrap=False, user_ok=True):
-    ops = ["exp new %d" % rng.choice([0, 1, 7, 0xffffffff, rng.getrandbits(32)])]
+def valid_session(rng, sup, nsends, near_wrap=False, user_ok=True, json=False):
+    ops = ["exp new %d%s" % (rng.choice([0, 1, 7, 0xffffffff, rng.getrandbits(32)]), " json" if json else "")]
     if near_wrap:
         ops.append("exp seq %d" % (2 ** 32 - rng.randint(1, 500)))
     elif rng.random() < 0.3:
@@ -114,11 +114,14 @@ def invalid_ops(rng, sup, tpls, kind):
     raise ValueError(kind)
 
 
+INVALID_JSON = ["unknown-template", "field-count", "setid-mismatch", "undefined-type"]
 INVALID = ["unknown-template", "field-count", "undefined-type", "oversize", "setid-mismatch", "ill-typed", "ill-typed", "ill-typed"]
 
 
-def mixed_session(rng, sup, kind=None):
-    ops, tpls = valid_session(rng, sup, rng.randint(2, 6), user_ok=False)
+def mixed_session(rng, sup, kind=None, json=False):
+    """json=True: the same session on a process created in JSON mode (`exp new <dom> json`); the caller picks the kind
+    from INVALID_JSON (the size and value-encoding demands are about the IPFIX message and do not apply)"""
+    ops, tpls = valid_session(rng, sup, rng.randint(2, 6), user_ok=False, json=json)
     tail = ops[-2:]
     ops = ops[:-2]
     kind = kind or rng.choice(INVALID)
@@ -128,4 +131,73 @@ def mixed_session(rng, sup, kind=None):
     for _ in range(rng.randint(1, 3)):
         tid = rng.choice(sorted(tpls))
         ops.append(send_data(rng, tid, tpls[tid], rng.randint(1, 3)))
-    return Case(ops + tail, label, True, True)
+    return Case(ops + tail, ("json:" if json else "") + label, True, True)
+
+
+# ---- Write outcomes (`exp failnext <kind>`: the NEXT Write on the connection fails / is refused / is short) ----
+
+def template_msg_len(ies):
+    """length of the message of a template set with one record: message header, set header, record header, specifiers"""
+    return 16 + 4 + 4 + sum(8 if ie.ent else 4 for ie in ies)
+
+
+def fail_kind(rng, msglen=None):
+    """err / refused (ECONNREFUSED of a connected UDP socket) / short<k> with k below the message length"""
+    r = rng.random()
+    if r < 0.3:
+        return "err"
+    if r < 0.7:
+        return "refused"
+    ks = [0, 1, 3, 4, 7, 8, 15, 16, 19, 20, 21]
+    if msglen is not None:
+        ks = [k for k in ks if k < msglen] + [msglen - 1, msglen - 1]
+    return "short%d" % rng.choice(ks)
+
+
+def failnext_template_session(rng, sup):
+    """a template set whose Write fails was never sent: data for it must be refused; after a re-send that succeeds it is accepted"""
+    ops, tpls = valid_session(rng, sup, rng.randint(0, 4), user_ok=False) if rng.random() < 0.6 else (["exp new %d" % rng.getrandbits(32), "exp getseq", "exp tids"], {})
+    tail, ops = ops[-2:], ops[:-2]
+    tid = rng.choice([t for t in (258, 259, 301, 1000, 65534) if t not in tpls])
+    ies = pick_ies(rng, sup, False)
+    kind = fail_kind(rng, template_msg_len(ies))
+    ops.append("exp failnext " + kind)
+    if tpls and rng.random() < 0.2:
+        # a send that is refused before any Write leaves the outcome pending: the template set after it gets it
+        ops.append(send_data(rng, 9999, ies, 1))
+    ops.append(send_template(rng, tid, ies))
+    if rng.random() < 0.3:
+        ops.append("exp tids")
+    if rng.random() < 0.25:
+        ops.append("exp refresh")          # the refresher must not know the template either
+    for _ in range(rng.randint(1, 2)):
+        ops.append(send_data(rng, tid, ies, rng.choice([1, 1, 2, 5])))      # must be refused
+    if tpls and rng.random() < 0.5:
+        other = rng.choice(sorted(tpls))
+        ops.append(send_data(rng, other, tpls[other], rng.randint(1, 3)))   # the other templates are not affected
+    ops.append(send_template(rng, tid, ies))                                # this one is written
+    for _ in range(rng.randint(1, 3)):
+        ops.append(send_data(rng, tid, ies, rng.choice([1, 2, 3, 7])))      # accepted now
+    return Case(ops + tail, "failnext-template:" + kind.rstrip("0123456789"), True, True)
+
+
+def failnext_data_session(rng, sup):
+    """a data set (or a re-sent template) whose Write fails: an error, nothing beyond the outcome on the wire, later sends well-formed"""
+    ops, tpls = valid_session(rng, sup, rng.randint(1, 5), user_ok=False)
+    tail, ops = ops[-2:], ops[:-2]
+    for _ in range(rng.randint(1, 3)):
+        tid = rng.choice(sorted(tpls))
+        r = rng.random()
+        if r < 0.15:
+            kind = "short70000"            # more than any message: the connection takes all of it, the send succeeds
+        else:
+            kind = fail_kind(rng)
+        ops.append("exp failnext " + kind)
+        if r > 0.85:
+            ops.append(send_template(rng, tid, tpls[tid]))   # a template that was sent before stays sent
+        else:
+            ops.append(send_data(rng, tid, tpls[tid], rng.choice([1, 2, 3, 7])))
+        for _ in range(rng.randint(1, 2)):
+            t2 = rng.choice(sorted(tpls))
+            ops.append(send_data(rng, t2, tpls[t2], rng.randint(1, 3)))
+    return Case(ops + tail, "failnext-data", True, True)
